@@ -211,7 +211,7 @@ PROPS["C02"] = {
     "level": "translation_validation",
     "prepare": g_prepare,
     "jobs": [],
-    "designs": ["a1", "a2", "a3", "a4"],
+    "designs": ["a1", "a2", "a3", "a4", "a5"],
     "harness_tag": "c02",
     "quick": r"^VerifC02_", "thorough": r"^VerifC02T?_",
     "shards": {"a1_put": 4},
@@ -225,7 +225,7 @@ PROPS["C03"] = {
     "level": "translation_validation",
     "prepare": g_prepare,
     "jobs": [],
-    "designs": ["a1", "a2", "a3"],
+    "designs": ["a1", "a2", "a3", "a5"],
     "harness_tag": "c03",
     "quick": r"^VerifC03_", "thorough": r"^VerifC03T?_",
     "bounds": {'designs': {'a1': 'result with body attributes (string, int with default, nested user type, array) and two header attributes', 'a2': 'three responses selected by tag value (200/202/201), IPv6-formatted attribute validated by the client'}, 'values': 'full-width symbolic numbers, strings up to 2 bytes'},
@@ -300,7 +300,7 @@ PROPS["C20"] = {
     },
 }
 
-ALL_DESIGNS = ["v1", "v2", "v3", "v4", "v5", "d1", "a1", "a2", "a3", "a4", "e1", "s1", "s2", "w1", "w2", "p1", "c1", "c2", "c3", "c4", "c5"]
+ALL_DESIGNS = ["v1", "v2", "v3", "v4", "v5", "d1", "a1", "a2", "a3", "a4", "a5", "e1", "s1", "s2", "w1", "w2", "p1", "c1", "c2", "c3", "c4", "c5"]
 
 PROPS["C01"] = {
     "level": "other",
